@@ -268,7 +268,16 @@ class PulpProblem(Obj):
         self.sense = args[1] if len(args) > 1 else None
         self.solved_with = None
         self.attrs = {}
-        self.methods = {"solve": self._solve}
+        self.methods = {"solve": self._solve, "variables": self._variables}
+
+    def _variables(self, ev, call, args, kw):
+        """PuLP returns the variables of the objective and the constraints *sorted by name* (x_10_2 before x_2_0)."""
+        names = set()
+        if self.objective_lin is not None:
+            names |= {t.idx[0] for t in self.objective_lin.terms}
+        for c in self.model.constraints:
+            names |= {t.idx[0] for t in c.lin.terms}
+        return [PVar(nm, self.world.values) for nm in sorted(names)]
 
     def abs_iadd(self, value, ev, node):
         if isinstance(value, Constraint):
